@@ -136,6 +136,29 @@ def run(case):
         t2 = t.to_annotation().get_timeline()
         t3 = t.to_annotation(generator="int", modality="m").get_timeline()
         out["rt_timeline"] = bool(t == t2) and not bool(t != t2) and bool(t3 == t)
+        # equality after an in-place edit of a copy: a copy that gained or lost a segment / track differs from its
+        # source, the source still equals a fresh copy of itself and has kept its size
+        from pyannote.core import Segment as _Seg
+        far = max([abs(x) for r_ in case["a"] for x in r_[0]] + [0]) + 100
+        extra = tb.S([far, far + 5])
+        n_t, n_a = len(t), len(a)
+        tc = t.copy()
+        tc.add(extra)
+        ok_c = bool(tc != t) and not bool(tc == t) and len(t) == n_t and len(tc) == n_t + 1 and bool(t == t.copy())
+        tc.remove(extra)
+        ok_c = ok_c and bool(tc == t) and not bool(tc != t)
+        if n_t:
+            tc.remove(t[0])
+            ok_c = ok_c and bool(tc != t) and len(t) == n_t and (t[0] in t) and (t[0] not in tc)
+        tg = a.get_timeline()
+        tg.add(extra)
+        ok_c = ok_c and bool(a.get_timeline() == t) and bool(tg != t) and len(a.get_timeline()) == n_t
+        ac = a.copy()
+        ac[extra, "zz"] = "zz_label"
+        ok_c = ok_c and bool(ac != a) and not bool(ac == a) and len(a) == n_a and bool(a == a.copy())
+        del ac[extra, "zz"]
+        ok_c = ok_c and bool(ac == a) and not bool(ac != a)
+        out["rt_timeline"] = out["rt_timeline"] and ok_c
         tbb = b.get_timeline()
         out["tl_eq"] = bool(t == tbb)
         out["tl_ne"] = bool(t != tbb)
